@@ -3,6 +3,10 @@ package main
 // C10: TPS text and positions round-trip without loss.
 // CASE F <enc p> | <tps hex> <parse class> <Equal> <Hash equal> <reserves equal> <ply equal> | <enc parsed>
 // CASE S <string hex> | <parse class> <re-formatted hex> | <enc parsed>
+// Family client-line: the same round trip observed on the wire - positions handed to tei.Player.TEIGetMove, the `position tps`
+// line the engine process received (tei.test of harness/build_c17.sh, fake engine) parsed back and compared with the position.
+//
+// verif:needs c17
 
 import (
 	"encoding/hex"
@@ -197,6 +201,137 @@ func mutateTPS(r *rand.Rand, s string) string {
 	return string(b)
 }
 
+// c10ClientLines: the TEI client's `position tps` line (observation point of the property).  Reachable positions of random games
+// go through tei.Client.NewGame / Player.TEIGetMove to a fake engine process; one client serves several games, and boards come back
+// with the same side to move at LATER move numbers (a shuffle returned to it; the same opening in the next game) - a client that
+// remembers a line per board (or per hash, which does not cover the ply) would send the old move number.  Oracle: ParseTPS of the
+// transmitted text is Equal to the position (both ways), has the same hash, reserves, side to move and move number.
+func c10ClientLines(c *ctx) {
+	r := c.r
+	bin := c17Build()
+	type sess struct {
+		items []string
+		want  []*tak.Position
+	}
+	later := func(p *tak.Position, plies int) *tak.Position {
+		n := p.Size()
+		board := make([][]tak.Square, n)
+		for y := range board {
+			board[y] = make([]tak.Square, n)
+			for x := range board[y] {
+				board[y][x] = p.At(x, y)
+			}
+		}
+		q, err := tak.FromSquares(tak.Config{Size: n}, board, p.MoveNumber()+plies)
+		if err != nil {
+			panic(err)
+		}
+		return q
+	}
+	var ss []sess
+	for k := 0; k < 10*c.scale; k++ {
+		var s sess
+		var carry []*tak.Position
+		for g := 0; g < 1+r.Intn(3); g++ {
+			size := 3 + r.Intn(6)
+			if g > 0 && len(carry) > 0 && r.Intn(2) == 0 {
+				size = carry[0].Size()
+			}
+			s.items = append(s.items, fmt.Sprintf("G %d", size))
+			ps, _ := randomGame(r, tak.Config{Size: size}, 6+r.Intn(30), []int{-1, 2, 1, 5}[r.Intn(4)], false)
+			var asked []*tak.Position
+			for i, p := range ps {
+				if over, _ := p.GameOver(); over || (i > 8 && r.Intn(3) != 0) {
+					continue
+				}
+				asked = append(asked, p)
+				if r.Intn(3) == 0 {
+					asked = append(asked, later(p, 2*(1+r.Intn(3)))) // the same board and side to move, later
+				}
+				if r.Intn(4) == 0 {
+					for _, o := range carry { // a board of an earlier game of this client, at another move number
+						if o.Size() == size {
+							asked = append(asked, later(o, 2*r.Intn(4)))
+							break
+						}
+					}
+				}
+			}
+			for _, p := range asked {
+				s.items = append(s.items, "P "+ptn.FormatTPS(p))
+				s.want = append(s.want, p)
+			}
+			carry = append(asked, carry...)
+		}
+		ss = append(ss, s)
+	}
+	var reqs []string
+	for i, s := range ss {
+		reqs = append(reqs, fmt.Sprintf("K %d %s", i, hex.EncodeToString([]byte(strings.Join(s.items, "\n")))))
+	}
+	resp := c17Drive(bin, "c10-clients-"+c.tier, reqs)
+	for i, s := range ss {
+		f := strings.Split(resp[i], " ")
+		in := "client-session;" + strings.Join(s.items, ";")
+		if len(f) < 4 || f[0] != "K" {
+			c.printf("ORACLE-FAIL client-driver | %s | %s | a K response\n", in, resp[i])
+			continue
+		}
+		raw, _ := hex.DecodeString(f[3])
+		var lines []string
+		for _, l := range strings.Split(string(raw), "\n") {
+			w := strings.Fields(l)
+			if len(w) == 3 && w[0] != "-" {
+				b, _ := hex.DecodeString(w[0])
+				if strings.HasPrefix(string(b), "position ") {
+					lines = append(lines, string(b))
+				}
+			}
+		}
+		c.stat("client_sessions", 1)
+		if len(lines) != len(s.want) {
+			c.printf("ORACLE-FAIL client-line-missing | %s | %d position lines for %d requests (%s) | one position line per request\n", in, len(lines), len(s.want), f[2])
+			continue
+		}
+		for k, l := range lines {
+			p := s.want[k]
+			c.stat("client_lines", 1)
+			text := strings.TrimPrefix(l, "position tps ")
+			cls, q := parseTPSClass(text)
+			why := ""
+			switch {
+			case !strings.HasPrefix(l, "position tps "):
+				why = "not a `position tps` line"
+			case cls != "OK":
+				why = "the text does not parse: " + cls
+			case !(p.Equal(q) && q.Equal(p)):
+				why = "not Equal"
+			case p.Hash() != q.Hash():
+				why = "hash differs"
+			case p.MoveNumber() != q.MoveNumber() || p.ToMove() != q.ToMove():
+				why = fmt.Sprintf("move number / side differ (ply %d sent for ply %d)", q.MoveNumber(), p.MoveNumber())
+			default:
+				a1, b1, c1, d1 := tak.VerifReserves(p)
+				a2, b2, c2, d2 := tak.VerifReserves(q)
+				if a1 != a2 || b1 != b2 || c1 != c2 || d1 != d2 {
+					why = "reserves differ"
+				}
+			}
+			if why != "" {
+				c.printf("ORACLE-FAIL client-line-roundtrip | %s | request %d (%s): the engine received %q: %s | the transmitted TPS parses back to an equal position with the same hash, reserves, side and move number\n",
+					in, k+1, enc(p), l, why)
+				break
+			}
+		}
+		// the positions are also model cases of the plain round trip
+		for k, p := range s.want {
+			if k%4 == 0 {
+				emitC10F(c, p, "client")
+			}
+		}
+	}
+}
+
 func runC10(c *ctx) {
 	if c.tier == "replay" {
 		in := readReplay(c).Input
@@ -247,4 +382,5 @@ func runC10(c *ctx) {
 		strings.Repeat("1", 70) + ",x2/x3/x3 1 40", strings.Repeat("12", 140) + "C,x2/x3/x3 1 40"} {
 		emitC10S(c, s, false)
 	}
+	c10ClientLines(c)
 }
